@@ -59,6 +59,10 @@ pub struct PCase {
   /// answer for that run such cases: C17)
   #[serde(default)]
   pub panic_at: usize,
+  /// fault (C02 only): a `DropGuard` action drops the guard because the scope that
+  /// owns it unwinds from a panic of its own (not of a subscriber callback)
+  #[serde(default)]
+  pub guard_unwinds: bool,
 }
 
 #[derive(Default, Debug)]
@@ -127,6 +131,26 @@ impl Handle {
     match self {
       Handle::L(h) => drop(h.unsubscribe_when_dropped()),
       Handle::S(h) => drop(h.unsubscribe_when_dropped()),
+    }
+  }
+  /// the guard goes out of scope because its owner panics: the drop runs during
+  /// unwinding (the panic is the owner's own and is caught right here)
+  fn drop_guard_unwinding(self) {
+    struct OwnerUnwinds;
+    let r = std::panic::catch_unwind(std::panic::AssertUnwindSafe(move || match self {
+      Handle::L(h) => {
+        let _guard = h.unsubscribe_when_dropped();
+        std::panic::panic_any(OwnerUnwinds)
+      }
+      Handle::S(h) => {
+        let _guard = h.unsubscribe_when_dropped();
+        std::panic::panic_any(OwnerUnwinds)
+      }
+    }));
+    if let Err(p) = r {
+      if !p.is::<OwnerUnwinds>() {
+        std::panic::resume_unwind(p)
+      }
     }
   }
 }
@@ -325,12 +349,14 @@ fn run_pipeline_inner(case: &PCase, mut pool: Option<&mut futures::executor::Loc
             let before = w.shared.stamp();
             if *a == PAct::Unsub {
               h.unsubscribe()
+            } else if case.guard_unwinds {
+              h.drop_guard_unwinding()
             } else {
               h.drop_guard()
             }
             let after = w.shared.stamp();
             run.cut = Some((before, after));
-            run.trace.push_str(if *a == PAct::Unsub { "UNSUB " } else { "GUARD-DROP " });
+            run.trace.push_str(if *a == PAct::Unsub { "UNSUB " } else if case.guard_unwinds { "GUARD-DROP(owner unwinding) " } else { "GUARD-DROP " });
           }
         }
       }));
